@@ -462,10 +462,11 @@ def run(tier, replay=None):
     from mchap.calling import mcmc as cmcmc
     from mchap.calling.classes import CallingMCMC
     from mchap.calling.likelihood import log_likelihood_alleles as lla
-    for it in range({"warm": 1, "quick": 8, "thorough": 60}[tier]):
-        shape = it % 4
-        ploidy = (2, 4, 10, 6)[shape]
-        n_haps = (4, 8, 6, 300)[shape]
+    for it in range({"warm": 1, "quick": 10, "thorough": 60}[tier]):
+        shape = it % 5
+        ploidy = (2, 4, 10, 6, 4)[shape]
+        n_haps = (4, 8, 6, 300, 1)[shape]          # (1: a record whose only usable allele is one haplotype - nothing to choose, but the
+                                                   # likelihood carried is still that of the genotype)
         nb = 10 if n_haps > 32 else r.randint(2, 4)
         seen, haps = set(), []
         for _ in range(n_haps * 20):
